@@ -31,3 +31,24 @@ package gmtls
 //@     (invariant list (= (c3 d) (bvsub numCerts i)))
 //@     (unfold (tls.cnt3 (row d) (off d) (len d)))
 //@     (decreases (bvsub numCerts i))))
+
+// Key-agreement message processors: the handshake code passes non-nil message, certificate and configuration objects
+// (precondition); everything inside the messages comes from the peer and is unconstrained.
+//@ (func "(*eccKeyAgreementGM).processClientKeyExchange" sweep
+//@   (requires args (and (not (isnil config)) (not (isnil cert)) (not (isnil ckx)))))
+//@ (func "(*ecdheKeyAgreementGM).processClientKeyExchange" sweep
+//@   (requires args (and (not (isnil config)) (not (isnil cert)) (not (isnil ckx)))))
+//@ (func "(*ecdheKeyAgreementGM).generateServerKeyExchange" sweep)
+//@ (func "(rsaKeyAgreement).processClientKeyExchange" sweep
+//@   (requires args (and (not (isnil config)) (not (isnil cert)) (not (isnil ckx)))))
+//@ (func "(*ecdheKeyAgreementGM).processServerKeyExchange" sweep
+//@   (requires args (and (not (isnil config)) (not (isnil clientHello)) (not (isnil serverHello)) (not (isnil cert)) (not (isnil skx)))))
+//@ (func "(*eccKeyAgreementGM).processServerKeyExchange" sweep
+//@   (requires args (and (not (isnil config)) (not (isnil clientHello)) (not (isnil serverHello)) (not (isnil cert)) (not (isnil skx))
+//@                       (not (isnil (field ka encipherCert))))))
+//@ (func "(*ecdheKeyAgreement).processClientKeyExchange" sweep
+//@   (requires args (and (not (isnil config)) (not (isnil cert)) (not (isnil ckx)))))
+//@ (func "(*ecdheKeyAgreement).processServerKeyExchange" sweep
+//@   (requires args (and (not (isnil config)) (not (isnil clientHello)) (not (isnil serverHello)) (not (isnil cert)) (not (isnil skx)))))
+//@ (func "(*Conn).decryptTicket" sweep
+//@   (requires args (not (isnil (field c config)))))
